@@ -987,9 +987,20 @@ def analyzer_digest(an):
     _add(h, an.mol.eval_gto("GTOval_sph", pts))
     h.update(repr(sorted((k, repr(v)) for k, v in an.mol._basis.items())).encode())
     h.update(str((int(an.mol.spin), int(an.mol.charge))).encode())
+    def addval(v):
+        if isinstance(v, dict):
+            for kk in sorted(v):
+                h.update(("{" + str(kk)).encode())
+                addval(v[kk])
+            h.update(b"}")
+        elif isinstance(v, (str, bytes)):
+            h.update(b"s:" + (v.encode() if isinstance(v, str) else v))
+        else:
+            _add(h, np.asarray(v))
+
     for k in sorted(an.keys()):
         h.update(k.encode())
-        _add(h, np.asarray(an.get(k)))
+        addval(an.get(k))
     _add(h, an.grids.weights)
     return h.hexdigest()
 
@@ -1011,10 +1022,29 @@ def run_analyzer(spec):
     dm = zoo.make_dm(mol, rng, 2 if uks else 1)
     cls = UHFAnalyzer if uks else RHFAnalyzer
     shape = (2, nao) if uks else (nao,)
-    an = cls(mol, dm, grids_level=0, mo_occ=r.uniform(0, 2, shape), mo_coeff=r.normal(size=shape + (nao,)), mo_energy=r.normal(size=shape))
-    an.set("ex_energy_density", r.normal(size=an.grids.weights.size))
-    an.set("some_scalar", np.float64(r.normal()))
+    def build(k):
+        # optional orbital data may be absent (None entries are not written)
+        mo = {"mo_occ": r.uniform(0, 2, shape), "mo_coeff": r.normal(size=shape + (nao,)), "mo_energy": r.normal(size=shape)}
+        for name in list(mo):
+            if rng.chance(0.25):
+                mo[name] = None
+        a = cls(mol, dm if k == 0 else dm * (1.0 + 0.01 * k), grids_level=rng.choice([0, 0, 1]), **mo)
+        a.set("ex_energy_density", r.normal(size=a.grids.weights.size))
+        a.set("some_scalar", np.float64(r.normal()))
+        if rng.chance(0.5):
+            a.set("rho_data", r.normal(size=(2 if uks else 1, 5, a.grids.weights.size)))
+        if rng.chance(0.4):
+            a.set("xc_label", rng.choice(["PBE", "r2SCAN", "CIDER24X-ne"]))
+        if rng.chance(0.4):
+            a.set("nested", {"e_tot": float(r.normal()), "parts": {"ha": r.normal(size=3), "n": int(r.integers(0, 9))}})
+        if rng.chance(0.3):
+            a.set("count", int(r.integers(0, 100)))
+        return a
+
+    an = build(0)
+    other = build(1)
     ref = analyzer_digest(an)
+    ref_other = analyzer_digest(other)
     ck.dg.add(ref)
     wd = tempfile.mkdtemp(prefix="fsim_an_", dir=os.environ.get("VERIF_SCRATCH", "/tmp"))
     try:
@@ -1022,7 +1052,16 @@ def run_analyzer(spec):
         for c in range(3):
             path = os.path.join(wd, "an.v%d.hdf5" % c)
             try:
+                if c == 1:
+                    # the path already holds another analyzer: a dump replaces it
+                    other.dump(path)
+                    ck.stats["analyzer_overwrites"] += 1
                 cur.dump(path)
+                if c == 2:
+                    # a later dump of another analyzer to another path must not matter
+                    other.dump(os.path.join(wd, "other.hdf5"))
+                    if analyzer_digest(ElectronAnalyzer.load(os.path.join(wd, "other.hdf5"))) != ref_other:
+                        ck.v("roundtrip:ElectronAnalyzer.load:%s:mismatch" % cls.__name__, "second analyzer differs after reload", rp)
                 cur = ElectronAnalyzer.load(path)
             except Exception as e:
                 ck.v("roundtrip:ElectronAnalyzer:%s:raises-%s" % (cls.__name__, type(e).__name__), str(e)[:200], rp)
@@ -1122,7 +1161,7 @@ def plan(tier, seed, args):
     # corruption
     for d in range(2 if tier == "quick" else 8):
         cases.append({"kind": "corrupt", "seed": rng.below(10**6)})
-    for d in range(4 if tier == "quick" else 40):
+    for d in range(10 if tier == "quick" else 80):
         cases.append({"kind": "analyzer", "seed": rng.below(10**6)})
     # seeded histories
     nh = args.cases if args.cases is not None else (240 if tier == "quick" else 12000)
